@@ -2,6 +2,8 @@
 import os
 import random
 import re
+import shutil
+import subprocess
 from . import common, gen, shtools, project, projgen, ninjaparse
 from .common import d_list
 
@@ -10,8 +12,19 @@ RULE = ('generated projects (static/shared/dual libraries, executables using the
         'default, test) built by the real GNU Make with logging stub tools; per project: full build, no-op second build, then for every '
         'source / intermediate / generated input one touch + rebuild, executed step set compared with the downstream set of the '
         "generator's own DAG; DefaultOutputs operation sequences vs the model. A case is non-trivial when the touched file has at "
-        'least one downstream step; distinct by (project, touched file)')
+        'least one downstream step; distinct by (project, touched file). W:emit: random scripts driven through the real builtins in an '
+        'in-process build context (compile with header file objects / pch given as object or by name / extra_deps / a second output, '
+        'static and shared libraries with libs=, executables sharing object files, nested output directories, command and build_step with '
+        'file nodes in the command line, 1-3 outputs, always_outdated, copy_file, alias, test, test_deps, default, install): per edge the '
+        'Rule / Build tuples of the real Make and Ninja handlers vs Graph/Emit.v, per script the hooks, and - independent of the model - the '
+        'prerequisites of every output vs what the SCRIPT declares (written down by the generator from the arguments it passes). '
+        'R:stampsem: stamp-shaped rule graphs (2-3 outputs, 1-3 consumers, chains, goal orders, touch / delete of inputs, outputs, stamp) '
+        'in GNU Make vs StampSem.dmake. Dependency-shape projects (projgen.generate_graph): every output named, declared DAG next to '
+        'the script; emitted edges of both backends vs the DAG, then touch of every source and of half the intermediates with real make')
 TRUSTED = ('mtime build semantics: the real GNU Make 4.3 (system level); Make/MakeSem.v model for the generic theorems',
+           'Graph/StampSem.v dmake (depth-first walk with cached mtimes) validated against GNU Make 4.3 on this run (R:stampsem)',
+           'emitter model: an Edge is abstracted to its attribute dump (abstract_step); the spelling of .stamp / .dir names is '
+           'taken from the real Path.addext / parent / append (C12); one producer per file is C05',
            'Ninja graph read through the reference evaluator (no ninja binary)')
 
 
@@ -64,6 +77,612 @@ def stage_w_defaults(rep, rng, n):
     return common.compare_model(rep, 'W:DefaultOutputs', calls, impl, lambda n_, r: tuple(list(x) for x in r))
 
 
+# ----------------------------------------------------------------------------- W: the real rule handlers vs Graph/Emit.v
+KIND_OF = {'CompileSource': 0, 'CompileHeader': 0, 'GenerateSource': 0, 'StaticLink': 1, 'DynamicLink': 1, 'SharedLink': 1,
+           'Command': 2, 'BuildStep': 3, 'CopyFile': 4, 'CompressFile': 4, 'Alias': 5}
+
+
+class Names:
+    """Numbers the distinct files / phony names of one script (ids from 1) and their parent directories (0 = the build
+    directory itself); renders the nodes of the model back to names."""
+
+    def __init__(self):
+        from bfg9000.path import Path
+        self.ids, self.paths, self.dirs, self.dirpaths = {}, {}, {}, {}
+        self.top = Path('.')
+
+    @staticmethod
+    def path_of(x):
+        from bfg9000.path import BasePath
+        if isinstance(x, str):
+            return None
+        p = x if isinstance(x, BasePath) else x.path
+        return p if isinstance(p, BasePath) else None        # Phony(name).path is the bare name
+
+    def key(self, x):
+        p = self.path_of(x)
+        if p is None:
+            return 'builddir:' + (x if isinstance(x, str) else x.path)
+        return '%s:%s' % (p.root.name, p.suffix)
+
+    def id(self, x):
+        k = self.key(x)
+        if k not in self.ids:
+            self.ids[k] = len(self.ids) + 1
+            self.paths[self.ids[k]] = self.path_of(x)
+        return self.ids[k]
+
+    def dir_id(self, x):
+        p = self.path_of(x)
+        if p is None:
+            return 0
+        d = p.parent()
+        if d == self.top:
+            return 0
+        k = self.key(d)
+        if k not in self.dirs:
+            self.dirs[k] = len(self.dirs) + 1
+            self.dirpaths[self.dirs[k]] = d
+        return self.dirs[k]
+
+    def node(self, n):
+        """[tag, id] of the model -> key; the spelling of stamp and sentinel names comes from the real path algebra"""
+        tag, i = n
+        if tag == 0:
+            return [k for k, v in self.ids.items() if v == i][0]
+        if tag == 1:
+            return self.key(self.paths[i].addext('.stamp'))
+        if tag == 2:
+            return self.key(self.dirpaths[i].append('.dir'))
+        return 'builddir:PHONY'
+
+
+def abstract_step(e, nm):
+    """The attribute dump of a real Edge in the wire format of Graph/GraphEmitTable.v un_step."""
+    from bfg9000.iterutils import listify
+    opt = lambda v: [] if v is None else [nm.id(v)]
+    ids = lambda l: [nm.id(x) for x in l]
+    comp = getattr(e, 'compiler', None)
+    pk = [d for p in getattr(e, 'packages', []) for d in p.deps]
+    return [KIND_OF[type(e).__name__], [[nm.id(o), nm.dir_id(o)] for o in e.output],
+            opt(getattr(e, 'file', None)), opt(getattr(e, 'pch_source', None)), opt(getattr(e, 'pch', None)),
+            ids(getattr(e, 'include_deps', [])), ids(getattr(e, 'libs', None) or []), ids(pk),
+            ids(getattr(e, 'files', [])), ids(listify(getattr(e, 'module_defs', None))),
+            ids(listify(getattr(e, 'manifest', None))), ids(e.extra_deps), bool(getattr(e, 'phony', False)),
+            bool(comp is not None and comp.deps_flavor in ('gcc', 'msvc'))]
+
+
+def declared_consumption(e, nm):
+    """Model-independent reading of the property: everything the step consumes (keys)."""
+    from bfg9000.iterutils import listify
+    out = []
+    for a in ('pch_source', 'file', 'pch'):
+        v = getattr(e, a, None)
+        if v is not None:
+            out.append(v)
+    for a in ('include_deps', 'libs', 'files'):
+        out.extend(getattr(e, a, None) or [])
+    for p in getattr(e, 'packages', []):
+        out.extend(p.deps)
+    out.extend(listify(getattr(e, 'module_defs', None)))
+    out.extend(listify(getattr(e, 'manifest', None)))
+    out.extend(e.extra_deps)
+    return set(nm.key(x) for x in out)
+
+
+def real_script(rng, rep, ctx, build):
+    """A random script driven through the real builtins.  Returns (command-node records for the BaseCommand tie, test
+    declarations, declarations): a declaration is (output object, set of consumed objects, text of the call) - what the
+    SCRIPT says the step producing that output consumes, written down here from the arguments handed to the builtin
+    (not read from the Edge)."""
+    from bfg9000 import file_types
+    cmdnodes = []          # (edge, [(node, has_creator)], declared extra_deps)
+    decl = []
+    ctx['project']('p')
+    hdrs = [ctx['header_file']('inc/h%d.h' % i) for i in range(2)]
+    produced = []          # file objects with a creator
+    plain = [ctx['source_file']('data%d.txt' % i) for i in range(2)]
+
+    keyer = Names()
+
+    def some(pool, lo=0, hi=2):
+        pool = list(pool)
+        return rng.sample(pool, min(len(pool), rng.randint(lo, hi)))
+
+    def name(x):
+        return x if isinstance(x, str) else '<%s>' % keyer.key(x)
+
+    def call(fn, *a, **kw):
+        return '%s(%s)' % (fn, ', '.join([repr(name(x)) if not isinstance(x, list) else repr([name(y) for y in x]) for x in a] +
+                                         ['%s=%r' % (k, [name(y) for y in v] if isinstance(v, list) else name(v) if not isinstance(v, (bool, dict)) else v)
+                                          for k, v in kw.items()]))
+
+    def header_objs(incs):
+        return [i for i in incs if not isinstance(i, str)]
+
+    def command_like(kind, idx):
+        nodes = some(produced, 0, 2) + some(plain, 0, 2)
+        rng.shuffle(nodes)
+        extra = some(produced + plain + [ctx['generic_file']('loose%d.txt' % idx)], 0, 2)
+        files = some(produced + [ctx['generic_file']('in%d.dat' % idx)], 0, 2)
+        cmd = ['tool'] + [x for n in nodes for x in (rng.choice(['-x', '--in']), n)][:2 * len(nodes)]
+        if kind == 'command':
+            out = ctx['command']('cmd%d' % idx, cmd=cmd, files=files, extra_deps=extra)
+            e = out.creator
+            outs = [out]
+            text = call('command', 'cmd%d' % idx, cmd=cmd, files=files, extra_deps=extra)
+        else:
+            k = rng.choice([1, 1, 2, 2, 3])
+            dirs = rng.choice([[''] * 3, ['g/'] * 3, ['g/', 'h/', 'g/'], ['', 'g/k/', 'h/']])
+            names = ['%sbs%d_%d.%s' % (dirs[j], idx, j, rng.choice(['c', 'h', 'txt'])) for j in range(k)]
+            ao = rng.random() < 0.25
+            out = ctx['build_step'](names if k > 1 else names[0], cmd=cmd, files=files, extra_deps=extra, always_outdated=ao)
+            outs = list(out) if k > 1 else [out]
+            e = outs[0].creator
+            produced.extend(outs)
+            text = call('build_step', names, cmd=cmd, files=files, extra_deps=extra, always_outdated=ao)
+            rep.count('w-emit:build_step outputs=%d' % k)
+        named = [n for n in nodes if getattr(n, 'creator', None) or not e.phony]
+        for o in outs:
+            decl.append((o, set(files) | set(extra) | set(named), text))
+        cmdnodes.append((e, [(n, bool(getattr(n, 'creator', None))) for n in nodes], extra))
+
+    def includes_for():
+        incs = some(hdrs + [p for p in produced if isinstance(p, file_types.HeaderFile)], 0, 2)
+        if rng.random() < 0.3:
+            incs.append('incdir')            # a plain include DIRECTORY is not a file dependency
+        return incs
+
+    def implicit_pch(obj, pch_name, incs, text):
+        """pch='name' (a string): the builtin creates the precompiled-header step itself, with the same includes"""
+        p = obj.creator.pch
+        src = p.creator.file
+        decl.append((p, {src} | set(header_objs(incs)), text + '  [its implicit precompiled header]'))
+        rep.count('w-emit:pch given by name with includes=%d header objects' % len(header_objs(incs)))
+        return p
+
+    for i in range(rng.randint(0, 2)):
+        command_like('build_step', i)
+    pch = None
+    if rng.random() < 0.4:
+        try:
+            kw = {'source': 'pre.c'} if rng.random() < 0.5 else {}
+            incs = includes_for()
+            pch = ctx['precompiled_header'](file='pre.h', includes=incs, **kw)
+            e = pch.creator
+            decl.append((pch, {e.file} | set(header_objs(incs)) | ({e.pch_source} if getattr(e, 'pch_source', None) else set()),
+                         call('precompiled_header', file='pre.h', includes=incs, **kw)))
+            rep.count('w-emit:pch' + ('+source' if kw else ''))
+        except (TypeError, ValueError):
+            rep.count('w-emit:pch rejected by the toolchain')
+            pch = None
+    objs = []
+    used_src = []
+    for i in range(rng.randint(1, 4)):
+        gen_src = [p for p in produced if isinstance(p, file_types.SourceFile) and p not in used_src]
+        src = rng.choice(gen_src) if gen_src and rng.random() < 0.3 else ctx['source_file'](rng.choice(['src/', 'src/deep/', '']) + 's%d.c' % i)
+        used_src.append(src)
+        incs = includes_for()
+        extra = some(produced + plain + [ctx['generic_file']('note%d.txt' % i)], 0, 2)
+        kw = {'includes': incs, 'extra_deps': extra}
+        by_name = False
+        if pch is not None and rng.random() < 0.4:
+            kw['pch'] = pch
+        elif pch is None and rng.random() < 0.3 and not any(d[2].endswith('[its implicit precompiled header]') for d in decl):
+            kw['pch'] = 'auto_pre.h'
+            by_name = True
+        text = call('object_file', file=src, **kw)
+        o = ctx['object_file'](file=src, **kw)
+        used_pch = implicit_pch(o, 'auto_pre.h', incs, text) if by_name else kw.get('pch')
+        decl.append((o, {src} | set(header_objs(incs)) | set(extra) | ({used_pch} if used_pch is not None else set()), text))
+        if rng.random() < 0.25:
+            # a compile step with a second output (as yacc/bison or Qt generators have): exercised on the real
+            # handlers by giving the real edge a second output
+            extra_out = file_types.HeaderFile(o.path.stripext('.extra.h'), 'c')
+            extra_out.creator = o.creator
+            o.creator.output.append(extra_out)
+            decl.append((extra_out, decl[-1][1], text + '  [second output]'))
+            rep.count('w-emit:compile with 2 outputs')
+        objs.append(o)
+        produced.append(o)
+    libs = []
+    fwd = {}
+    for i in range(rng.randint(0, 2)):
+        fn = rng.choice(['static_library', 'shared_library'])
+        files = some(objs, 1, 2)
+        ll, extra = some(libs, 0, 1), some(plain, 0, 1)
+        nm_ = rng.choice(['', 'lib/', 'lib/nested/']) + 'l%d' % i
+        l = ctx[fn](nm_, files=files, libs=ll, extra_deps=extra)
+        # archiving does not read the libraries a static library is declared to use: either reading is accepted
+        # libraries a static library is declared to use are forwarded to whatever links against it (C14)
+        via = set().union(*[fwd.get(x, set()) for x in ll]) if ll else set()
+        if fn == 'static_library':
+            fwd[l] = set(ll) | via
+        decl.append((l, set(files) | set(extra) | (set(ll) if fn == 'shared_library' else set()),
+                     call(fn, nm_, files=files, libs=ll, extra_deps=extra), (set(ll) | via) if fn == 'static_library' else via))
+        rep.count('w-emit:%s libs=%d' % (fn, len(ll)))
+        libs.append(l)
+        produced.append(l)
+    exes = []
+    for i in range(rng.randint(1, 2)):
+        files = some(objs, 1, 3)                 # object files are shared between executables
+        ll, extra = some(libs, 0, 2), some(produced + [ctx['generic_file']('x%d.txt' % i)], 0, 2)
+        nm_ = rng.choice(['', 'bin/', 'bin/deep/']) + 'prog%d' % i
+        kw = {}
+        implicit_src = None
+        if rng.random() < 0.4:
+            # sources given by name: the objects are created by the builtin, with the includes / pch of the executable
+            implicit_src = ctx['source_file']('m%d.c' % i)
+            kw['includes'] = includes_for()
+            if pch is None and rng.random() < 0.5 and not any(d[2].endswith('[its implicit precompiled header]') for d in decl):
+                kw['pch'] = 'auto_pre.h'
+        text = call('executable', nm_, files=files + ([implicit_src] if implicit_src else []), libs=ll, extra_deps=extra, **kw)
+        x = ctx['executable'](nm_, files=files + ([implicit_src] if implicit_src else []), libs=ll, extra_deps=extra, **kw)
+        allobjs = list(x.creator.files)
+        if implicit_src:
+            io = [o for o in allobjs if o not in files][0]
+            p = implicit_pch(io, 'auto_pre.h', kw['includes'], text) if 'pch' in kw else None
+            decl.append((io, {implicit_src} | set(header_objs(kw['includes'])) | ({p} if p is not None else set()),
+                         text + '  [its implicit object]'))
+            produced.append(io)
+        decl.append((x, set(allobjs) | set(ll) | set(extra), text, set().union(*[fwd.get(y, set()) for y in ll]) if ll else set()))
+        exes.append(x)
+        produced.append(x)
+    shared = [o for o in objs if sum(1 for x in exes if o in x.creator.files) > 1]
+    if shared:
+        rep.count('w-emit:object shared by two executables')
+    for i in range(rng.randint(0, 2)):
+        command_like('command', i)
+    copies = []
+    for i in range(rng.randint(0, 2)):
+        src, extra = rng.choice(plain + produced[:1]), some(plain + produced[-1:], 0, 1)
+        nm_ = rng.choice(['', 'out/', 'out/a/b/']) + 'copy%d.txt' % i
+        c = ctx['copy_file'](nm_, src, extra_deps=extra)
+        decl.append((c, {src} | set(extra), call('copy_file', nm_, src, extra_deps=extra)))
+        copies.append(c)
+        produced.append(c)
+    if rng.random() < 0.7:
+        members = some(exes + copies + libs, 0, 3)
+        a = ctx['alias']('both', members)
+        decl.append((a, set(members), call('alias', 'both', members)))
+    tests_decl = []
+    if rng.random() < 0.6:
+        for x in some(exes, 1, 2):
+            args = some(copies + plain, 0, 2)
+            t = ctx['test']([x] + args)
+            tests_decl.append((t, [x] + args))
+        if rng.random() < 0.5:
+            ctx['test_deps'](*some(copies + libs + exes, 1, 2))
+    if rng.random() < 0.4:
+        ctx['default'](*some(exes + copies, 1, 2))
+    if rng.random() < 0.5:
+        ctx['install'](*some(exes, 1, 1))
+    return cmdnodes, tests_decl, decl
+
+
+def stage_w_emit(rep, rng, n, tag='W:emit'):
+    """Run the REAL rule handlers (make_compile, make_link, make_command, make_copy_file, make_alias, their Ninja twins
+    and the all / tests / install hooks) on real Edge objects created by the real builtins in an in-process build
+    context, and compare the Rule / Build tuples they register with Graph/Emit.v on the attribute dump of each edge.
+    Also, independent of the model: (C03) the prerequisites Make is given equal the consumption declared on the edge,
+    (C06) Make and Ninja are given the same prerequisite sets and the same targets. Returns (disagreements, failures)."""
+    from . import c14
+    from bfg9000 import builtins as B
+    B.init()
+    from bfg9000.builtins import default as bdefault, tests as btests, install as binstall
+    from bfg9000.backends.make import writer as make
+    from bfg9000.backends.ninja import writer as ninja
+    import logging
+    logging.disable(logging.WARNING)
+    env = c14.make_env((True, True))
+    calls, impl, metas = [], [], []
+    bad = 0
+    rejected_scripts = 0
+
+    def mrules(rs, nm):
+        return [[[nm.key(t) for t in r.targets], [nm.key(d) for d in r.deps], [nm.key(o) for o in r.order_only],
+                 bool(r.recipe), bool(r.phony)] for r in rs]
+
+    def nbuilds(bs, nm):
+        return [[[nm.key(o) for o in b.outputs], b.rule == 'phony', [nm.key(i) for i in b.inputs],
+                 [nm.key(i) for i in b.implicit], [nm.key(o) for o in b.order_only]] for b in bs]
+
+    for it in range(n):
+        build, ctx = c14.make_context(env)
+        try:
+            cmdnodes, tests_decl, decl = real_script(rng, rep, ctx, build)
+        except (ValueError, TypeError) as ex:          # a builtin refused a generated combination: not a comparison
+            rep.count('w-emit:script rejected (%s)' % type(ex).__name__)
+            rejected_scripts += 1
+            continue
+        nm = Names()
+        mk = make.Makefile('build.bfg', False, gnu=True)
+        nj = ninja.NinjaFile('build.bfg')
+        bdefault.make_all_rule(build, mk, env)
+        bdefault.ninja_all_rule(build, nj, env)
+        steps = []
+        rejected = False
+        for e in build.edges():
+            st = abstract_step(e, nm)
+            steps.append(st)
+            n0, m0 = len(mk._rules), len(nj._builds)
+            has = nj.has_build('PHONY')
+            try:
+                make.rule_handler.run([e], build, mk, env)
+                ninja.rule_handler.run([e], build, nj, env)
+            except ValueError as ex:
+                if 'already exists' not in str(ex):
+                    raise
+                rep.count('w-emit:script with a duplicate output (rejected by the emitter, C05)')
+                rejected = True
+                break
+            real_m, real_n = mrules(mk._rules[n0:], nm), nbuilds(nj._builds[m0:], nm)
+            calls.append(('emit.make_step', [st])); impl.append(real_m); metas.append(nm)
+            calls.append(('emit.ninja_step', [has, st])); impl.append([real_n, nj.has_build('PHONY')]); metas.append(nm)
+            calls.append(('emit.step_info', [st])); impl.append([True, None]); metas.append(nm)
+            kind = type(e).__name__
+            rep.count('w-emit:' + kind)
+            rep.case('emit:%s:%r' % (kind, st), len(e.output) > 1 or bool(e.extra_deps))
+            # ---- direct oracles on the real handlers (no model involved)
+            want = declared_consumption(e, nm)
+            internal = lambda k: k.endswith('.stamp') or k.endswith('/.dir') or k == 'builddir:PHONY'
+            for o in e.output:
+                ko = nm.key(o)
+                r = [x for x in real_m if ko in x[0]]
+                got_m = set(r[0][1]) if r else None
+                if got_m is not None and len(got_m) == 1 and next(iter(got_m)).endswith('.stamp'):
+                    r2 = [x for x in real_m if next(iter(got_m)) in x[0]]
+                    got_m = set(r2[0][1]) if r2 else None
+                b = [x for x in real_n if ko in x[0]]
+                got_n = set(b[0][2] + b[0][3]) if b else None
+                if b and b[0][1] and kind != 'Alias' and len(b[0][2]) == 1:      # phony alias of a compile step
+                    b2 = [x for x in real_n if b[0][2][0] in x[0] and not x[1]]
+                    got_n = set(b2[0][2] + b2[0][3]) if b2 else got_n
+                got_n = None if got_n is None else set(k for k in got_n if not internal(k))
+                if got_m != want:
+                    bad += rep.fail('Make rule of %s (%s): prerequisites %r, the step consumes %r' % (ko, kind, sorted(got_m or []), sorted(want)),
+                                    {'kind': 'handler-deps-make', 'edge': kind, 'output': ko, 'make': sorted(got_m or []),
+                                     'declared': sorted(want), 'step': st})
+                if got_n != want:
+                    bad += rep.fail('Ninja edge of %s (%s): inputs %r, the step consumes %r' % (ko, kind, sorted(got_n or []), sorted(want)),
+                                    {'kind': 'handler-deps-ninja', 'edge': kind, 'output': ko, 'ninja': sorted(got_n or []),
+                                     'declared': sorted(want), 'step': st})
+        if rejected:
+            continue
+        # hooks
+        btests.make_test_rule(build, mk, env)
+        btests.ninja_test_rule(build, nj, env)
+        inst_ok = True
+        try:
+            binstall.make_install_rule(build, mk, env)
+            binstall.ninja_install_rule(build, nj, env)
+        except Exception:
+            inst_ok = False
+            rep.count('w-emit:install hook not runnable')
+        names = [nm.id(x) for x in ('all', 'tests', 'test', 'install', 'uninstall')]
+        tinputs = []
+
+        def walk(ts):
+            for t in ts:
+                tinputs.extend(t.inputs)
+                walk(getattr(t, 'tests', []))
+        tin = build['tests']
+        walk(tin.tests)
+        has_inst = any(r.targets == ['install'] for r in mk._rules)
+        has_uninst = any(r.targets == ['uninstall'] for r in mk._rules)
+        script = [steps, names, [nm.id(x) for x in build['defaults'].outputs],
+                  [[[nm.id(x) for x in tinputs], [nm.id(x) for x in tin.extra_deps]]] if tin else [],
+                  has_inst, has_uninst]
+        calls.append(('emit.make', [script])); impl.append(mrules(mk._rules, nm)); metas.append(nm)
+        calls.append(('emit.ninja', [script])); impl.append(nbuilds(nj._builds, nm)); metas.append(nm)
+        rep.case('emit-script:%r' % (script,), True)
+        # ---- direct oracle on the implementation, script level: what the SCRIPT says each step consumes (written down
+        # by the generator from the arguments it handed to the builtins) against the prerequisites in both backends
+        all_m, all_n = mrules(mk._rules, nm), nbuilds(nj._builds, nm)
+        internal = lambda k: k.endswith('.stamp') or k.endswith('/.dir') or k == 'builddir:PHONY'
+        script_text = [d[2] for d in decl]
+        for d in decl:
+            o, want_objs, text = d[0], d[1], d[2]
+            want = set(nm.key(x) for x in want_objs)
+            optional = set(nm.key(x) for x in d[3]) if len(d) > 3 else set()
+            ko = nm.key(o)
+            r = [x for x in all_m if ko in x[0]]
+            got_m = set(r[0][1]) if r else None
+            if got_m is not None and len(got_m) == 1 and next(iter(got_m)).endswith('.stamp'):
+                r2 = [x for x in all_m if next(iter(got_m)) in x[0]]
+                got_m = set(r2[0][1]) if r2 else None
+            b = [x for x in all_n if ko in x[0]]
+            got_n = set(b[0][2] + b[0][3]) if b else None
+            if b and b[0][1] and not text.startswith('alias(') and len(b[0][2]) == 1:
+                b2 = [x for x in all_n if b[0][2][0] in x[0] and not x[1]]
+                got_n = set(b2[0][2] + b2[0][3]) if b2 else got_n
+            got_n = None if got_n is None else set(k for k in got_n if not internal(k))
+            rep.case('script-deps:%s:%r' % (text, sorted(want)), bool(want))
+            for backend, got in (('make', got_m), ('ninja', got_n)):
+                if got is None or not (want <= got <= want | optional):
+                    missing = sorted(want - (got or set()))
+                    extra_ = sorted((got or set()) - want - optional)
+                    bad += rep.fail('%s: the rule producing %s does not depend on exactly what the script says the step consumes: missing %r, '
+                                    'unexpected %r; step: %s' % (backend, ko, missing, extra_, text),
+                                    {'kind': 'script-deps', 'backend': backend, 'output': ko, 'step': text, 'missing': missing,
+                                     'unexpected': extra_, 'declared': sorted(want), 'emitted': sorted(got or []), 'script': script_text})
+        # model-independent: same buildable targets in both backends
+        internal = lambda k: k.endswith('.stamp') or k.endswith('/.dir') or k == 'builddir:PHONY'
+        tm = set(k for r in mrules(mk._rules, nm) for k in r[0] if not internal(k))
+        tn = set(k for b in nbuilds(nj._builds, nm) for k in b[0] if not internal(k))
+        if tm != tn:
+            bad += rep.fail('buildable targets differ between the Make and Ninja handlers: only make %r, only ninja %r' % (
+                sorted(tm - tn), sorted(tn - tm)), {'kind': 'handler-targets', 'only_make': sorted(tm - tn), 'only_ninja': sorted(tn - tm)})
+        # BaseCommand.__init__ / Test.__init__: which command-line nodes become dependencies
+        for e, nodes, extra in cmdnodes:
+            calls.append(('emit.command_extra_deps', [bool(e.phony), [[nm.id(x), c] for x, c in nodes], [nm.id(x) for x in extra]]))
+            impl.append([nm.key(x) for x in e.extra_deps]); metas.append(nm)
+            rep.count('w-emit:cmd nodes phony=%s' % bool(e.phony))
+        for t, cmd in tests_decl:
+            calls.append(('emit.test_inputs', [[[nm.id(x), bool(getattr(x, 'creator', None))] for x in cmd]]))
+            impl.append([nm.key(x) for x in t.inputs]); metas.append(nm)
+    logging.disable(logging.NOTSET)
+    if rejected_scripts * 2 > n:
+        rep.fail('W:emit - %d of %d generated scripts were refused by the builtins: the comparison did not run' % (rejected_scripts, n),
+                 {'obligation': 'W:emit'}, found_input=False)
+
+    raw = common.model_batch(calls)
+    dis = []
+
+    def dnodes(nm, l):
+        return [nm.node(x) for x in l]
+    for i, ((name, arg), r, iv) in enumerate(zip(calls, raw, impl)):
+        nm = metas[i]
+        if name in ('emit.make_step', 'emit.make'):
+            mv = None if not r else [[dnodes(nm, x[0]), dnodes(nm, x[1]), dnodes(nm, x[2]), x[3] != 0, x[4] != 0] for x in r[0]]
+        elif name == 'emit.ninja_step':
+            mv = [[[dnodes(nm, x[0]), x[1] != 0, dnodes(nm, x[2]), dnodes(nm, x[3]), dnodes(nm, x[4])] for x in r[0]], r[1] != 0]
+        elif name == 'emit.ninja':
+            mv = [[dnodes(nm, x[0]), x[1] != 0, dnodes(nm, x[2]), dnodes(nm, x[3]), dnodes(nm, x[4])] for x in r]
+        elif name == 'emit.step_info':
+            mv = [r[0] != 0, None]            # the shape guard of the theorems holds for every real edge
+        else:
+            mv = [nm.node([0, x]) for x in r]
+        if mv != iv:
+            dis.append((i, (name, arg), iv, mv))
+    nvm, ok, detail = common.vm_crosscheck(calls, raw, limit=40)
+    rep.stage(tag + '(real rule handlers)', cases=len(calls), disagreements=len(dis), handler_oracle_failures=bad,
+              vm_compute_rechecked=nvm, vm_agrees=ok)
+    if not ok:
+        rep.fail('extraction glue: ' + detail, {'obligation': 'vm_compute == extracted model', 'detail': detail}, found_input=False)
+    if dis:
+        i, call, iv, mv = dis[0]
+        rep.sample({'stage': tag, 'call': call, 'impl': iv, 'model': mv})
+    return dis, bad
+
+
+# ----------------------------------------------------------------------------- R: StampSem.dmake vs real make
+XSTAMP_SH = '''#!/bin/sh
+# xstamp.sh target also... : log the target, give it and the also-files the next clock value, advance the clock
+n=$(cat ctr)
+echo "$1" >> log
+for f in "$@"; do touch -d "@$n" "$f"; done
+echo $((n+1)) > ctr
+'''
+
+
+def gen_stamp_graph(rng, rep):
+    """Stamp-shaped rule graphs as multitarget_rule writes them, with consumers: [target, prereqs, order, recipe, phony, also]."""
+    ni = rng.randint(1, 2)
+    inputs = list(range(1, ni + 1))
+    k = rng.choice([2, 2, 3])
+    outs = list(range(10, 10 + k))
+    stamp = 19
+    rules = [[o, [stamp], [], False, False, []] for o in outs]
+    rules.append([stamp, rng.sample(inputs, rng.randint(1, ni)), [], True, False, outs])
+    mids = []
+    if rng.random() < 0.4:           # an ordinary single-output step next to it
+        rules.append([30, rng.sample(inputs + outs, rng.randint(1, 2)), [], True, False, []])
+        mids.append(30)
+    cons = []
+    for c in range(20, 20 + rng.randint(1, 3)):
+        pool = outs + mids + inputs
+        prs = rng.sample(pool, rng.randint(1, min(3, len(pool))))
+        if not set(prs) & set(outs) and rng.random() < 0.8:
+            prs.append(rng.choice(outs))
+        rules.append([c, prs, [], True, False, []])
+        cons.append(c)
+    if rng.random() < 0.4:
+        rules.append([40, rng.sample(cons, rng.randint(1, len(cons))), [], True, False, []])
+        cons.append(40)
+    goals = rng.sample(cons + mids + outs, rng.randint(1, len(cons) + 1))
+    if rng.random() < 0.5:
+        goals = sorted(set(goals) | set(cons))
+        if rng.random() < 0.5:
+            goals.reverse()
+    rng.shuffle(rules)
+    ops = [[0, 0], [0, 0]]
+    for _ in range(rng.randint(1, 3)):
+        r = rng.random()
+        if r < 0.6:
+            ops.append([1, rng.choice(inputs)]); rep.count('stampsem:touch input')
+        elif r < 0.75:
+            ops.append([1, rng.choice(outs)]); rep.count('stampsem:touch output')
+        elif r < 0.9:
+            ops.append([2, rng.choice(outs)]); rep.count('stampsem:delete one output')
+        else:
+            ops.append([2, stamp]); rep.count('stampsem:delete stamp')
+        ops.append([0, 0])
+        if rng.random() < 0.7:
+            ops.append([0, 0])
+    return rules, goals, [[i, 100 + 2 * i] for i in inputs], ops
+
+
+def real_make_session(d, rules, goals, fs0, clk, ops):
+    sub = os.path.join(d, 'g')
+    shutil.rmtree(sub, ignore_errors=True)
+    os.makedirs(sub)
+    with open(os.path.join(sub, 'xstamp.sh'), 'w') as f:
+        f.write(XSTAMP_SH)
+    mk = ['all:' + ''.join(' f%d' % g for g in goals)]
+    for t, prs, oo, recipe, phony, also in rules:
+        mk.append('f%d:%s' % (t, ''.join(' f%d' % p for p in prs)))
+        if recipe:
+            mk.append('\t@sh xstamp.sh $@%s' % ''.join(' f%d' % a for a in also))
+    with open(os.path.join(sub, 'Makefile'), 'w') as f:
+        f.write('\n'.join(mk) + '\n')
+    for x, t in fs0:
+        p = os.path.join(sub, 'f%d' % x)
+        open(p, 'w').close()
+        os.utime(p, (t, t))
+    with open(os.path.join(sub, 'ctr'), 'w') as f:
+        f.write('%d\n' % clk)
+    res = []
+    for op, x in ops:
+        if op == 0:
+            open(os.path.join(sub, 'log'), 'w').close()
+            p = subprocess.run(['make', '-rR'], cwd=sub, capture_output=True, text=True, timeout=60, env=common.impl_env())
+            log = [int(w[1:]) for w in open(os.path.join(sub, 'log')).read().split()]
+            res.append([log, p.returncode != 0])
+        elif op == 1:
+            n = int(open(os.path.join(sub, 'ctr')).read())
+            p = os.path.join(sub, 'f%d' % x)
+            open(p, 'a').close()
+            os.utime(p, (n, n))
+            with open(os.path.join(sub, 'ctr'), 'w') as f:
+                f.write('%d\n' % (n + 1))
+        else:
+            try:
+                os.remove(os.path.join(sub, 'f%d' % x))
+            except FileNotFoundError:
+                pass
+    return res
+
+
+def stage_r_stampsem(rep, rng, n):
+    """The depth-first Make model with cached mtimes (Graph/StampSem.v dmake), in which C03_stamp_consumers_refuted is
+    stated, against the real GNU Make on generated stamp-shaped graphs: recipe logs of every make run compared."""
+    d = common.scratch('c03ss')
+    try:
+        calls, real = [], []
+        # the witness of the theorem first
+        fixed = [([[10, [12], [], False, False, []], [11, [12], [], False, False, []], [12, [1], [], True, False, [10, 11]],
+                   [20, [10], [], True, False, []], [21, [11], [], True, False, []]], [20, 21], [[1, 5]],
+                  [[0, 0], [0, 0], [1, 1], [0, 0], [0, 0]])]
+        for i in range(n):
+            rules, goals, fs0, ops = fixed[i] if i < len(fixed) else gen_stamp_graph(rng, rep)
+            calls.append(('stamp.session', [rules, goals, fs0, 1000, ops]))
+            real.append(real_make_session(d, rules, goals, fs0, 1000, ops))
+            rep.case('stampsem:%r' % ([rules, goals, ops],), True)
+        rep.sample({'stage': 'R:stampsem', 'rules [target, prereqs, order, recipe, phony, also]': calls[0][1][0],
+                    'goals': calls[0][1][1], 'ops': calls[0][1][4], 'make logs': real[0]})
+        dis = common.compare_model(rep, 'R:stampsem (dmake vs GNU Make)', calls, real,
+                                   lambda n_, r: [[list(x[0]), x[1] != 0] for x in r], vm_limit=10)
+    finally:
+        shutil.rmtree(d, ignore_errors=True)
+    if dis:
+        i, call, iv, mv = dis[0]
+        rep.fail('R:stampsem - StampSem.dmake disagrees with GNU Make (%d cases), e.g. rules %r goals %r ops %r: make %r, model %r' % (
+            len(dis), call[1][0], call[1][1], call[1][4], iv, mv),
+            {'obligation': 'R:stampsem', 'call': call, 'make': iv, 'model': mv}, found_input=False)
+    return dis
+
+
 # ----------------------------------------------------------------------------- system level
 def step_id(argv, srcroot):
     """Name the step a recorded tool invocation belongs to."""
@@ -100,6 +719,8 @@ def expected_graph(p):
             if st['lib']:
                 for user in libs_used_by.get(st['owner'], ()):
                     d.add('link:' + user)
+                if not libs_used_by.get(st['owner']):
+                    d = set()        # a library no executable uses is not reachable from the goals make is given
             down[st['source']] = d
     down['gen.in'] = {'build_step'}
     return down
@@ -200,12 +821,171 @@ def default_membership(rep, rng, idx):
     return bad
 
 
+# ----------------------------------------------------------------------------- system level: dependency-shape projects
+STAMP_CLASS = 'make-stamp-output-consumer-stale'
+
+
+def _mtimes(build, outs):
+    r = {}
+    for o in outs:
+        try:
+            r[o] = os.stat(os.path.join(build, o)).st_mtime_ns
+        except OSError:
+            r[o] = None
+    return r
+
+
+def graph_project(rep, rng, idx):
+    """projgen.generate_graph: configure (Make), full build, no-op build, then touch every source / generated input and
+    compare the set of steps whose primary output was re-created with the downstream set of the declared DAG; Ninja: the
+    edge graph read by the reference evaluator, its downstream closure compared with the same expectation."""
+    import time
+    p = projgen.generate_graph(rng, rep)
+    G = p.graph
+    bad = 0
+    prim = [st['out'] for st in G]
+    sources = sorted(set(c[4:] for st in G for c in st['consumes'] if c.startswith('src:')))
+
+    def expected(name, with_optional):
+        g = [dict(st, consumes=st['consumes'] + (st.get('optional', []) if with_optional else [])) for st in G]
+        return projgen.graph_downstream(g, name)
+
+    multi_outs = set(o for st in G if st['multi'] for o in st['outs'])
+    stale_prone = set()          # consumers (transitively) of outputs of a multi-output step
+    for o in multi_outs:
+        stale_prone |= projgen.graph_downstream(G, o)
+    with project.Scratch('c03g') as s:
+        project.write_tree(s.src, p.tree())
+        rc, out = project.configure(s.src, s.build, 'make')
+        if rc != 0:
+            rep.fail('configure fails on the dependency-shape project: %s' % out[-400:], {'script': p.script(), 'output': out[-1500:]})
+            return 1
+        # ---- dependency edges as written, both backends, against the declared DAG (also covers the pch shapes)
+        from . import c06
+        mr = c06.make_rules(project.read(s.build, 'Makefile'))
+        bn = s.build + '-ninja'
+        rc, out = project.configure(s.src, bn, 'ninja')
+        nin = ninjaparse.parse(project.read(bn, 'build.ninja')) if rc == 0 else None
+        shutil.rmtree(bn, ignore_errors=True)
+
+        def canon(x):
+            for pre in ('$(srcdir)/', s.src + '/'):
+                if x.startswith(pre):
+                    return 'src:' + x[len(pre):]
+            return x[2:] if x.startswith('./') else x
+        for st in G:
+            want = set(st['consumes'])
+            opt = set(st.get('optional', []))
+            for o in st['outs']:
+                md = mr.get(o, (set(), set()))[0]
+                if len(md) == 1 and next(iter(md)).endswith('.stamp'):
+                    md = mr.get(next(iter(md)), (set(), set()))[0]
+                md = set(canon(x) for x in md)
+                views = [('make', md)]
+                if nin is not None:
+                    b = nin.edge_for(o)
+                    views.append(('ninja', set(canon(x) for x in (b['inputs'] + b['implicit'] if b else []) if x != 'PHONY')))
+                for backend, got in views:
+                    rep.case('graph-deps:%d:%s:%s' % (idx, backend, o), True)
+                    if not (want <= got <= want | opt):
+                        bad += rep.fail('%s: the rule of %r lists prerequisites %r, the script declares %r' % (backend, o, sorted(got), sorted(want)),
+                                        {'kind': 'graph-deps', 'backend': backend, 'script': p.script(), 'output': o,
+                                         'emitted': sorted(got), 'declared': sorted(want), 'missing': sorted(want - got),
+                                         'unexpected': sorted(got - want - opt)})
+        if bad:
+            return bad
+        # ---- real make, stub tools
+        rcm, recs, mout = project.make(s.build, ['all'], stub_tools=True)
+        if rcm != 0:
+            return rep.fail('make fails on the dependency-shape project: %s' % mout[-300:], {'script': p.script(), 'make_output': mout[-1500:]})
+        before = _mtimes(s.build, prim)
+        time.sleep(0.02)
+        rcm, recs, mout = project.make(s.build, ['all'], stub_tools=True)
+        after = _mtimes(s.build, prim)
+        again = sorted(o for o in prim if after[o] != before[o])
+        rep.case('graph-noop:%d' % idx, True)
+        if rcm != 0 or again:
+            bad += rep.fail('a build right after a build re-created %r' % again, {'script': p.script(), 'recreated': again, 'make_output': mout[-800:]})
+        built = set(o for o in prim if after[o] is not None)
+        touchables = [('src', f) for f in sources] + [('out', o) for st in G for o in st['outs'] if o in built and rng.random() < 0.5]
+        for where, f in touchables:
+            time.sleep(0.02)
+            os.utime(os.path.join(s.src if where == 'src' else s.build, f), None)
+            name = ('src:' + f) if where == 'src' else f
+            before = _mtimes(s.build, prim)
+            rcm, recs, mout = project.make(s.build, ['all'], stub_tools=True)
+            after = _mtimes(s.build, prim)
+            ran = set(o for o in prim if after[o] != before[o])
+            wants = [expected(name, False) & built, expected(name, True) & built]
+            rep.case('graph-touch:%d:%s' % (idx, name), bool(wants[0]))
+            rep.count('graph:touch ' + where)
+            if rcm == 0 and ran in wants:
+                continue
+            classes = ()
+            lost = wants[0] - ran
+            if rcm == 0 and lost and lost <= stale_prone and not (ran - wants[1]):
+                # the touched file is upstream of a multi-output step and only consumers of its outputs were left stale
+                classes = (STAMP_CLASS,)
+                rep.count('graph:stale consumer of a stamp-encoded output')
+            bad += rep.fail('after touching %r make re-created %r, the script implies %r' % (name, sorted(ran), sorted(wants[0])),
+                            {'kind': 'graph-touch', 'script': p.script(), 'touched': name, 'recreated': sorted(ran),
+                             'expected': sorted(wants[0]), 'not_rebuilt': sorted(lost), 'make_output': mout[-600:]}, classes=classes)
+            if classes:
+                # the next make (nothing touched) repairs it - which is itself not a no-op; bring the tree up to date
+                time.sleep(0.02)
+                project.make(s.build, ['all'], stub_tools=True)
+        # ---- Ninja: downstream closure of the edge graph
+        if nin is not None:
+            for f in sources:
+                name = 'src:' + f
+                dirty, ran, changed = {name}, set(), True
+                while changed:
+                    changed = False
+                    for b in nin.builds:
+                        ins = set(canon(x) for x in b['inputs'] + b['implicit'])
+                        outs_ = [canon(o) for o in b['outputs']]
+                        if dirty & ins and not set(outs_) <= dirty:
+                            dirty |= set(outs_)
+                            changed = True
+                ran = set(o for o in prim if o in dirty)
+                rep.case('graph-ninja:%d:%s' % (idx, name), True)
+                if ran not in (expected(name, False), expected(name, True)):
+                    bad += rep.fail('ninja: the edges downstream of %r are %r, the script implies %r' % (name, sorted(ran), sorted(expected(name, False))),
+                                    {'kind': 'graph-ninja', 'script': p.script(), 'touched': name, 'downstream': sorted(ran),
+                                     'expected': sorted(expected(name, False))})
+        rep.sample({'graph project': idx, 'steps': len(G), 'touched': len(touchables), 'script': p.script()[:600]})
+    rep.traces += 1
+    return bad
+
+
+def load_own_findings(rep):
+    """known_findings.json is merged from findings.d/ by the coordinator; until then (and afterwards, idempotently)
+    take the open entries of findings.d/C03.json as well."""
+    import json
+    try:
+        own = json.load(open(os.path.join(common.VERIF, 'findings.d', 'C03.json')))
+    except (OSError, ValueError):
+        return
+    have = set(k['id'] for k in rep.known)
+    rep.known.extend(k for k in own if k.get('status') == 'open' and k.get('property') == 'C03' and k['id'] not in have)
+
+
 def run(rep):
     rng = random.Random(rep.seed)
     thorough = rep.tier == 'thorough'
     rep.proof_stage(coqchk=thorough)
+    load_own_findings(rep)
     dis = stage_w_defaults(rep, rng, 2000 if thorough else 300)
     found = 0
+    dis_e, bad_e = stage_w_emit(rep, random.Random(rng.random()), 300 if thorough else 40)
+    found += bad_e
+    dis_r = stage_r_stampsem(rep, random.Random(rng.random()), 400 if thorough else 40)
+    for i in range((10 if thorough else 2) * (3 if (dis_e or dis_r) else 1)):
+        found += graph_project(rep, rng, i)
+    if dis_e and not found:
+        # widened search: ten times the scripts through the direct oracles of the same stage
+        _, bad_e2 = stage_w_emit(rep, random.Random(rng.random()), 3000 if thorough else 400, tag='W:emit widened')
+        found += bad_e2
     for i in range((12 if thorough else 2) * (3 if dis else 1)):
         found += one_project(rep, rng, i)
     for i in range(8 if thorough else 2):
@@ -214,6 +994,10 @@ def run(rep):
     if rep.traces == 0:
         rep.fail('no generated project could be configured: the system-level comparison did not run',
                  {'obligation': 'system-level correspondence'}, found_input=False)
+    if dis_e and not found:
+        i, call, iv, mv = dis_e[0]
+        rep.fail('W:%s - emitter model and real rule handler disagree (%d cases), e.g. %r: impl %r, model %r' % (call[0], len(dis_e), call[1], iv, mv),
+                 {'obligation': 'W:' + call[0], 'call': call, 'impl': iv, 'model': mv}, found_input=False)
     if dis and not found:
         i, call, iv, mv = dis[0]
         rep.fail('W:%s - model and implementation disagree (%d cases), e.g. %r: impl %r, model %r' % (call[0], len(dis), call[1], iv, mv),
